@@ -63,6 +63,9 @@ Definition tee_join (mode : jmode) (xs : list val) (rs : list timed) : timed :=
   let '(steps, c) := pjoin_steps mode (by_item xs (map fst rs)) (map (fun _ => None) rs) in
   (steps, snd (pjoin_all mode 0 (map snd rs) c)).
 
+Fixpoint take_steps (k : Z) (xs : list val) : list (list val) :=
+  match xs with [] => [] | x :: r => (if (0 <? k)%Z then [x] else []) :: take_steps (k - 1) r end.
+
 Definition ptimed_simple (o : op) (xs : list val) : option timed :=
   match o with
   | OMap f => option_map (fun os => (os, []))
@@ -74,6 +77,8 @@ Definition ptimed_simple (o : op) (xs : list val) : option timed :=
   | OAssert p => if all_true (apply1 p) xs then Some (singles xs, []) else None
   | OAssert1 a => if pairs_ok (apply2 a) xs then Some (singles xs, []) else None
   | OLast => match xs with [] => None | x :: r => Some (silent xs, [last r x]) end
+  | OTake n => Some (take_steps n xs, [])
+  | OFirst => match xs with [] => None | _ :: _ => Some (take_steps 1 xs, []) end
   | OScan a seed t reduce term =>
       match scan_res a t seed xs with
       | None => None
@@ -132,3 +137,34 @@ Definition pbranches (bs : list (list op)) (xs : list val) : option (list timed)
      | [] => Some []
      | p :: bs' => match ptimed_pipe p xs, branches bs' with Some r, Some rs => Some (r :: rs) | _, _ => None end
      end) bs.
+
+(* the fragment on which the non-completing view of take / first is the plain behaviour: no operator
+   with completion output downstream of an early-completing one (looking into and out of tee branches) *)
+Definition completion_op (o : op) : bool :=
+  match o with
+  | OLast => true
+  | OScan _ _ _ reduce term => reduce || match term with Some _ => true | None => false end
+  | _ => false
+  end.
+Fixpoint tsafe_op (e : bool) (o : op) : bool * bool :=
+  let tsafe_pipe := fix sp (e : bool) (p : list op) : bool * bool :=
+    match p with
+    | [] => (true, e)
+    | o' :: p' => let '(ok, e1) := tsafe_op e o' in if ok then sp e1 p' else (false, e1)
+    end in
+  match o with
+  | OTake _ | OFirst => (true, true)
+  | OTee _ bs =>
+      (fix sb (bs : list (list op)) : bool * bool :=
+         match bs with
+         | [] => (true, e)
+         | p :: bs' => let '(ok1, e1) := tsafe_pipe e p in let '(ok2, e2) := sb bs' in (ok1 && ok2, e1 || e2)
+         end) bs
+  | _ => (negb (e && completion_op o), e)
+  end.
+Fixpoint tsafe_pipe (e : bool) (p : list op) : bool * bool :=
+  match p with
+  | [] => (true, e)
+  | o :: p' => let '(ok, e1) := tsafe_op e o in if ok then tsafe_pipe e1 p' else (false, e1)
+  end.
+Definition tsafe (p : list op) : bool := fst (tsafe_pipe false p).
